@@ -246,6 +246,14 @@ def registry_leg(ctx):
                 w3 = 'clause:%s:%s' % (clause, tname(col.dtype))
                 run_event(conn, mk(), w3 + '@%s.%s' % (tn, cn), events, ctx, fmt=False)
                 ctx.case(w3 + tn + cn, True)
+    # pivoted results announce the datatypes of the remaining columns, wherever the pivot columns sit
+    for text in ("SELECT sum(cd) AS t, cs, ci FROM #types WHERE cs IS NOT NULL AND ci IS NOT NULL GROUP BY cs, ci PIVOT BY cs, ci",
+                 "SELECT cs, sum(cd) AS t, ci, count(*) AS n FROM #types WHERE cs IS NOT NULL AND ci IS NOT NULL GROUP BY cs, ci PIVOT BY 1, 3",
+                 "SELECT ci, max(cdate) AS d, cs FROM #types WHERE cs IS NOT NULL AND ci IS NOT NULL GROUP BY 1, 3 PIVOT BY 3, 1",
+                 "SELECT account, sum(position) AS total, year FROM #postings GROUP BY account, year PIVOT BY 1, 3",
+                 "SELECT sum(number) AS total, currency, year FROM #postings GROUP BY currency, year PIVOT BY currency, year"):
+        run_event(conn, text, 'pivot:' + text[:60], events, ctx)
+        ctx.case('pivot:' + text, True)
     # subquery tables carry the inner datatypes
     for cn in cols:
         sub = selectq.bql.select_ast([(ast.Column(cn), 'x')], 'types')
@@ -276,6 +284,28 @@ def run(ctx):
     if res.violated:
         ctx.violation('spec:' + ','.join(res.violated), 'TLC: type soundness fails on the transcription', {'behaviour': res.behaviour[:3000]}, 'MC')
     ctx.leg('S2C', expressions=rp.n_expr, cells=rp.n_cells)
+    # ill-typed spines: whatever the compiler decides, an ACCEPTED statement must not die with a type error
+    nill = [0, 0]
+
+    def ill(m):
+        if 'table' in m:
+            return
+        nill[0] += 1
+        if nill[0] % ctx.pick(4, 1):
+            return
+        try:
+            stmt = selectq.bql.select_ast([(selectq.bql.expr_ast(m['e']), 'c0')], 't')
+        except selectq.bql.OutOfDomain:
+            return
+        status, desc, rows = selectq.run_query(rp.conn, stmt)
+        nill[1] += 1
+        ctx.traces += 1
+        if status == 'error' and type(desc).__name__ in ('TypeError', 'AttributeError'):
+            ctx.violation('illtyped:' + selectq.bql.expr_key(m['e']).split('(')[0] + ':' + type(desc).__name__,
+                          'a statement the type checker accepted fails with a type error: %s' % desc,
+                          {'e': m['e']}, 'S2C', 'CompilationError or a type-safe run', repr(desc))
+    ctx.tlc('Gen_Expr', 'Gen_ExprIll1.cfg', leg='GEN', on_json=ill)
+    ctx.leg('S2C', illtyped_spines_run=nill[1])
     # ---- C2S registry-driven
     events, uncovered = registry_leg(ctx)
     for i, ev in enumerate(events, 1):
